@@ -627,6 +627,11 @@ def run_c15(argv):
         # reported indices are positions in the network's own reaction list
         [R([], [], 100), R(["H", "CO"], ["HCO"], 100), R(["C", "O"], ["CO"], 100), R([], [], 100), R(["CO", "H"], ["HCO"], 100),
          R(["C", "O"], ["CO"], 100)],
+        # windows that differ in the first decimal only (2.7 K / 2.0 K, 10.5 K / 10.0 K): different reactions in every mode that
+        # looks at the window, the printed form included (it prints one decimal)
+        [R(["H", "CO"], ["HCO"], 100, 10.0, 300.0), R(["CO", "H"], ["HCO"], 100, 10.5, 300.0), R(["H", "CO"], ["HCO"], 100, 10.0, 300.0),
+         R(["C", "O"], ["CO"], 100, 2.7, 41000.0), R(["C", "O"], ["CO"], 100, 2.0, 41000.0), R(["O", "C"], ["CO"], 100, 2.7, 41000.5),
+         R(["C", "O"], ["CO"], 100, 2.7, 41000.0)],
     ]
     for n in range(ncases):
         lst = corpus[n] if n < len(corpus) else gen_dup_list(rng, tier)
